@@ -76,7 +76,8 @@ For histories of ANY length (induction over the history): no operation faults an
 invariant — pending events run fault-free from the controller's unit module and end in exactly
 the SDK's active id set; ids pairwise distinct, inside the unit module, within the budget — is
 preserved, for creation, gates, in-place/destructive measurement, free, keep, sequential keep
-with post routine, context blocks (both roles), flush and close.  Generic and NV configurations, with and without the transpiler. -/
+with post routine, context blocks (both roles), the min-fidelity retry forms of keep (any number
+of too slow attempts before a successful one), flush and close.  Generic and NV configurations, with and without the transpiler. -/
 theorem agree_preserved_partial (c : Cfg) (ops : List Op) (hg : good c St.init ops = true) :
     (runOps c St.init ops).2.fatal = false ∧ Inv c (runOps c St.init ops).1 :=
   let h := inv_runOps ops St.init (QM.inv_init c) hg
@@ -150,6 +151,31 @@ example : ((runOps ⟨true, false, 5⟩ St.init [.new, .new, .meas 1 false]).1.e
   decide
 example : ((runOps ⟨true, false, 5⟩ St.init [.new, .keep false 1]).1.evs
     = [.alloc 1, .use 1, .deliver 0]) := by decide
+
+/-! ### min-fidelity retry loop (`min_fidelity_all_at_end`, `max_tries`) -/
+
+/-- non-vacuity for the retry forms: plain and sequential, generic and NV (with a live qubit on
+id 0 that is relocated once, before the loop), slow first attempts -/
+example : good ⟨false, false, 5⟩ St.init
+    [.new, .keepr true 2 1 3, .seqr true 2 ⟨1, .meas⟩ 2 3, .flush, .free 1, .new, .flush, .close] = true := by
+  decide
+example : good ⟨true, false, 5⟩ St.init
+    [.keepr false 2 1 2, .flush, .new, .seqr true 3 ⟨0, .meas⟩ 1 2, .meas 1 false, .flush] = true := by decide
+/-- NV, live qubit on id 0, first attempt too slow: the relocation (here through the peephole)
+happens once, before the loop; NV, two pairs: each attempt allocates memory qubit 1 and the
+clean-up frees both pairs -/
+example : ((runOps ⟨true, false, 5⟩ St.init [.new, .keepr false 1 1 2]).1.evs
+    = [.alloc 1, .use 1, .deliver 0, .free 0, .deliver 0]) := by decide
+example : ((runOps ⟨true, false, 5⟩ St.init [.keepr false 2 1 2]).1.evs
+    = [.alloc 1, .use 1, .deliver 0, .use2 0 1, .free 0, .deliver 0, .free 1, .free 0,
+       .alloc 1, .use 1, .deliver 0, .use2 0 1, .free 0, .deliver 0]) := by decide
+
+/-- why `good` asks for `fails < tries`: when every attempt is too slow the last clean-up frees
+the pairs, yet the request has returned live handles — outside the statement (the request
+failed), recorded here as a proved fact about the code -/
+theorem retry_exhausted_witness :
+    activeIds (runOps ⟨false, false, 5⟩ St.init [.keepr true 2 2 2, .flush]).1.hs = [0, 1] ∧
+    (runOps ⟨false, false, 5⟩ St.init [.keepr true 2 2 2, .flush]).1.unit = [] := by decide
 
 /-! ### counter-examples: the full statement is false for the code (open findings) -/
 
